@@ -1,4 +1,5 @@
 import Poulpy.Lemmas.FheUint
+import Poulpy.Lemmas.BlindSel
 import Mathlib.Tactic.Positivity
 /-
 C15 — encrypted integers: bit layout and bit surgery (index algebra), over the plaintext-level model
@@ -187,5 +188,67 @@ theorem word_op_composes (op : BitVec 32 → BitVec 32 → BitVec 32) (a b : Bit
   cases circ i <;> simp
 
 example : decode u32 (pack u32 ((List.range 32).map fun i => if (0x12345678 >>> i) % 2 = 1 then (1 : Int) else 0)) = 0x12345678 := by decide
+
+/-! ### Blind retrieval and blind selection (`Poulpy/Model/BlindSel.lean`) -/
+
+open BlindSel in
+/-- **glwe_blind_retrieval_statefull returns table[idx].**  For every table (any length ≥ 1: powers of two,
+non-powers, shorter than half the index range, longer than it), every field position `bit_rsh`, every field width
+`bit_mask` and every index word whose field value `v = (idx >> bit_rsh) mod 2^bit_mask` is in range (`v < len`):
+after the forward pass element 0 is `table[v]`; the pass preserves the length.  Over any `Cswap` satisfying its
+contract. -/
+theorem retrieval_returns {V : Type} (cs : Bool → V → V → V × V) (hcs : CswapContract cs) (idx rsh mask : Nat) (a : List V)
+    (hv : (idx >>> rsh) % 2 ^ mask < a.length) :
+    (retrievalStatefull cs idx rsh mask a)[0]? = a[(idx >>> rsh) % 2 ^ mask]? ∧
+    (retrievalStatefull cs idx rsh mask a).length = a.length := by
+  unfold retrievalStatefull
+  refine ⟨?_, fwd_length cs _ a⟩
+  have hval := val_bitsMSB idx rsh mask
+  rw [fwd_get0 cs hcs _ a (by rw [hval]; exact hv), hval]
+
+/-- a 3-entry table with a 3-bit field (shorter than half the range), index 2, field at bit 1 -/
+example : BlindSel.retrievalStatefull (fun b (x y : Nat) => if b then (y, x) else (x, y)) (2 <<< 1) 1 3 [10, 11, 12] = [12, 11, 10] := by decide
+example : BlindSel.retrievalStatefull (fun b (x y : Nat) => if b then (y, x) else (x, y)) 15 0 5
+    [1, 2, 3, 4, 5, 6, 7, 8, 9, 10, 11, 12, 13, 14, 15, 16] = [16, 15, 13, 14, 9, 10, 11, 12, 1, 2, 3, 4, 5, 6, 7, 8] := by decide
+
+open BlindSel in
+/-- **glwe_blind_retrieval_statefull_rev restores the table** after the forward pass, for every index word (in
+range or not), every length, every field. -/
+theorem retrieval_rev_restores {V : Type} (cs : Bool → V → V → V × V) (hcs : CswapContract cs) (idx rsh mask : Nat) (a : List V) :
+    retrievalStatefullRev cs idx rsh mask (retrievalStatefull cs idx rsh mask a) = a :=
+  rev_fwd cs hcs _ a
+
+example : BlindSel.retrievalStatefullRev (fun b (x y : Nat) => if b then (y, x) else (x, y)) 6 0 3
+    (BlindSel.retrievalStatefull (fun b (x y : Nat) => if b then (y, x) else (x, y)) 6 0 3 [10, 11, 12, 13, 14]) = [10, 11, 12, 13, 14] := by
+  decide
+
+open BlindSel in
+/-- **glwe_blind_selection returns the selected entry** of the sparse table, zero when it is absent, for every
+field position / width and every set of present keys.  Over any `cmux_assign` satisfying its contract. -/
+theorem selection_returns {V : Type} (cm : Bool → V → V → V) (hcm : CmuxContract cm) (zero : V) (idx rsh mask : Nat)
+    (tbl : Nat → Option V) :
+    blindSelection cm zero idx rsh mask tbl = (tbl ((idx >>> rsh) % 2 ^ mask)).getD zero := by
+  unfold blindSelection
+  rw [select_spec cm hcm zero, val_bitsMSB]
+
+example : BlindSel.blindSelection (fun b (t f : Nat) => if b then t else f) 0 (5 <<< 1) 1 3
+    (fun j => if j = 0 then some 100 else if j = 2 then some 102 else if j = 5 then some 105 else none) = 105 := by decide
+
+/-- **GLWEBlindRetriever (one-shot), instances.**  On the identity table `[0, …, size-1]` the binary-counter
+retrieval returns `idx` for every size 2..17 and every index in range, with the index field at offset 0 and 2
+(the model is polymorphic in the element type, so the routing does not depend on the table's contents).
+`size = 1` allocates no accumulator and `add_core` panics (`split_at_mut(1)` of an empty slice) — recorded finding. -/
+theorem retrieve_instances :
+    ((List.range' 2 16).all fun size => (List.range size).all fun idx => [0, 2].all fun off =>
+      match BlindSel.retrieve (fun b (res a : Nat) => if b then a else res) 0 0 size (idx <<< off) off (List.range size) with
+      | .ok w => w == idx
+      | _ => false) = true ∧
+    (match BlindSel.retrieve (fun b (res a : Nat) => if b then a else res) 0 0 1 0 0 [7] with
+     | .panic _ => true
+     | _ => false) = true := by decide
+
+/- FULL STATEMENT (not proved) for the one-shot form: for every `2 ≤ size`, `data.length ≤ 2^bit_size`, `idx` field
+`< data.length`: `retrieve … = ok data[idx]` (binary-counter invariant: accumulator `i` with `num = 1` holds the
+selection, by index bits `< i`, of the last complete aligned block of `2^i` elements). -/
 
 end C15
